@@ -577,7 +577,7 @@ class Expander:
     def do_fn(self, rel, src, it, node, container):
         """Emit fn item `it` with contracts from node (node may be None => verbatim)."""
         an = rlex.FnAnatomy(it)
-        fnid = "%s::%s" % (container, it.name) if container else getattr(self, "_modprefix", "") + it.name
+        fnid = getattr(self, "_modprefix", "") + ("%s::%s" % (container, it.name) if container else it.name)
         spec = {"requires": [], "ensures": [], "decreases": [], "returns": [], "loops": {}, "head": None, "ret": None, "attrs": [], "sigsubs": [], "nloops": None, "bodysubs": []}
         for c in (node["children"] if node else []):
             w = c["text"].split(None, 1)
